@@ -61,13 +61,15 @@ Print Assumptions C03_stack_sound.
 
 (* "... unless verification was explicitly disabled for that store": for EVERY stack a
    returned chunk is verified, or verification is disabled somewhere on the way and the
-   chunk is the unverified wrapper of some raw storage bytes ... *)
+   chunk is the unverified wrapper of some raw storage bytes (or what a foreign,
+   content-trusting store made of its content) ... *)
 Theorem C03_stack_sound_skip :
   forall (H : bytes -> id) (zcomp : bytes -> bytes) (zdecomp : bytes -> option bytes)
          (s : stack) (i : id) (w : world) (c : chunk) (w' : world),
   get H zcomp zdecomp s i w = (Ok c, w') ->
   (exists b, data_of zdecomp c = Some b /\ H b = i)
-  \/ (verifying s = false /\ exists raw cv, c = mkChunk [] raw cv i true).
+  \/ (verifying s = false /\
+      ((exists raw cv, c = mkChunk [] raw cv i true) \/ (exists b, c = new_chunk b))).
 Proof. exact stack_sound_skip. Qed.
 Print Assumptions C03_stack_sound_skip.
 
@@ -82,6 +84,33 @@ Theorem C03_skip_leaf_returns_stored :
   /\ data_of zdecomp c = (if nonempty raw then from_storage zdecomp (converters (lo_uncompressed o)) raw else None).
 Proof. exact skip_leaf_returns_stored. Qed.
 Print Assumptions C03_skip_leaf_returns_stored.
+
+(* The casync CHUNK answer carries a chunk id next to the data.  Protocol.RequestChunk does
+   not use it: whatever label the answer carries, an accepted chunk yields bytes hashing to
+   the REQUESTED id (C03_stack_sound contains this for every stack with a Proto hop, in front
+   of any server, including one whose store derives ids from content, [Foreign]). *)
+Theorem C03_proto_response_id_ignored :
+  forall (H : bytes -> id) (zdecomp : bytes -> option bytes) (requested label : id) (body : bytes) (c : chunk),
+  proto_answer H zdecomp requested label body = Ok c ->
+  exists b, data_of zdecomp c = Some b /\ H b = requested.
+Proof. exact proto_response_id_ignored. Qed.
+Print Assumptions C03_proto_response_id_ignored.
+
+(* The variant that builds the chunk with the id found in the answer is refuted: in front of a
+   server over a content-trusting store it returns, without error, whatever that store holds in
+   the requested chunk's slot -- e.g. another chunk's valid object ([H b <> i]).  (zstd must
+   round-trip on that one object for the answer to decode; that is the only premise about it.) *)
+Theorem C03_proto_response_id_variant_refuted :
+  forall (H : bytes -> id) (zcomp : bytes -> bytes) (zdecomp : bytes -> option bytes)
+         (k h : nat) (i : id) (w : world) (b : bytes),
+  w_fault w (w_hist w) (OpGet k i) = NoFault ->
+  w_fault w (w_hist w ++ [OpGet k i]) (OpNet h i) = NoFault ->
+  w_obj w k i = Some b -> nonempty b = true ->
+  nonempty (zcomp b) = true -> zdecomp (zcomp b) = Some b ->
+  exists c, fst (proto_get_with H zcomp zdecomp (proto_answer_respid H zdecomp) h (foreign_get k i) i w) = Ok c
+            /\ data_of zdecomp c = Some b.
+Proof. exact proto_respid_delivers_foreign. Qed.
+Print Assumptions C03_proto_response_id_variant_refuted.
 
 (* A sequence of requests through the same stack (caches fill up, failover groups move on). *)
 Theorem C03_requests_sound :
@@ -236,6 +265,20 @@ Example C03_ex_proto_flip : ex_get (Proto 0 (ex_leaf 0 true)) 6%N (fun _ _ => So
 Proof. vm_compute. reflexivity. Qed.
 Example C03_ex_proto_good : ex_get (Proto 0 (ex_leaf 0 true)) 6%N (fun _ _ => Some [7; 1; 2; 3]%N) = Ok (Some [1; 2; 3]%N).
 Proof. vm_compute. reflexivity. Qed.
+(* a server over a store that derives ids from content, holding chunk 7's object [1;2;4] in the
+   slot of chunk 6: the client refuses it; the response-id variant delivers it for request 6;
+   a scripted answer "[1;2;4] labelled 7" (FRespond) is refused as well *)
+Example C03_ex_response_id :
+  let w := ex_world (fun _ _ => Some [1; 2; 4]%N) in
+  verifying (Proto 0 (Foreign 0)) = true
+  /\ ex_result (get ex_H ex_zc ex_zd (Proto 0 (Foreign 0)) 6%N w) = Err EInvalid
+  /\ ex_result (proto_get_with ex_H ex_zc ex_zd (proto_answer_respid ex_H ex_zd) 0 (foreign_get 0 6%N) 6%N w)
+     = Ok (Some [1; 2; 4]%N)
+  /\ ex_result (get ex_H ex_zc ex_zd (Proto 0 (ex_leaf 0 false)) 6%N
+        (mkWorld (fun _ _ => None) (fun _ => 0) [] (fun _ o => match o with OpNet _ _ => FRespond 7%N [7; 1; 2; 4]%N | _ => NoFault end)))
+     = Err EInvalid
+  /\ ex_result (get ex_H ex_zc ex_zd (Proto 0 (Foreign 0)) 7%N w) = Ok (Some [1; 2; 4]%N).
+Proof. vm_compute. repeat split; reflexivity. Qed.
 (* the premise of C03_pre898d634_copy_refuted is met by a verifying stack: RemoteSSH in front of
    `desync pull` over a store with a flipped object; index [(6, 3)] describing [1;2;3] *)
 Example C03_ex_eof_truncation :
